@@ -22,6 +22,10 @@ def assigned_fields(db, f):
                 nonnull.add((ini.get("rec"), ini["field"]))
     for lv, w in written_lvalues(f):
         s = strip(lv)
+        # a read-modify-write of a scalar member (n++, bytes += k) uses the old value: it does not initialise the member
+        if s["k"] == "MemberExpr" and s.get("mk") == "field" and (w["k"] == "UnaryOperator" or w.get("op") not in (None, "=")) and \
+                (f.type(s) or {}).get("kind") in ("int", "uint", "bool", "float"):
+            continue
         if s["k"] == "MemberExpr" and s.get("mk") == "field":
             if not (w.get("op") == "=" and w.get("rhs") is not None and const_value(w["rhs"]) == 0):
                 nonnull.add(field_key(f, s))
@@ -384,8 +388,41 @@ def r_zerofill(db, rep):
                         # on correct code.
                         good = True
                         if wit is not None:
-                            rep.notes.append("%s: fill loop at %s covers %s elements, %s allocated (e.g. %s); not enforced" % (
-                                g.qn, g.nloc(ln), symx.canon(b), symx.canon(esym), wit))
+                            from rules_serial import saved_array_fields
+                            is_saved = path[0] == "this" and g.rec and path[1] in saved_array_fields(db).get(g.rec, set())
+                            if is_saved:
+                                # the whole allocation goes to the image (R-EXTENT: saved extent = allocated extent): the fill must cover it
+                                rep.viol("%s#%s-fill-short-of-saved-extent" % (g.qn, path[1]), g.nloc(ln),
+                                         "%s zero-fills %s elements of %s but allocates - and %s::save writes - %s (e.g. %s): the words in between keep "
+                                         "whatever the allocator returned, and reach the image" % (
+                                             g.qn, symx.canon(b), fmt_path(g, path), g.rec, symx.canon(esym), wit), g.qn)
+                            else:
+                                rep.notes.append("%s: fill loop at %s covers %s elements, %s allocated (e.g. %s); not enforced" % (
+                                    g.qn, g.nloc(ln), symx.canon(b), symx.canon(esym), wit))
+                    # single-bit stores at an index that is a fixed expression of the object's state (not a loop counter): the word
+                    # that holds the bit lies inside the allocation
+                    for cn in g.calls():
+                        if callee_name(cn) not in ("bitset", "bitclean") or len(cn.get("args", [])) < 2 or resolved_path(g, cn["args"][0]) != path:
+                            continue
+                        I = pinned_sym(db, g, cn["args"][1], None, None)
+                        if symx.has_unknown(I) or symx.has_unknown(esym) or any(a[0] == "local" for a in symx.atoms(I) | symx.atoms(esym)):
+                            continue
+                        if not symx.atoms(I) <= symx.atoms(esym):
+                            continue            # the index is governed by state the extent does not mention (a running cursor): not related here
+                        rep.ob()
+                        import itertools
+                        syms = sorted(symx.atoms(I) | symx.atoms(esym), key=repr)
+                        for vals in itertools.islice(itertools.product(symx.GRID if len(syms) <= 2 else [0, 1, 2, 7, 31, 32, 33, 64, 100], repeat=len(syms)), 6000):
+                            val = dict(zip(syms, vals))
+                            vi, ve = symx.evaluate(I, val), symx.evaluate(esym, val)
+                            if vi is None or ve is None:
+                                continue
+                            if vi >= ve * at["bits"]:
+                                rep.viol("%s#%s-bit-outside-allocation" % (g.qn, fmt_path(g, path).replace("this->", "")), g.nloc(cn),
+                                         "%s sets bit %s of %s, which has %s words (e.g. %s: bit %d, %d bits allocated): a store past the end of "
+                                         "the allocation" % (g.qn, symx.canon(I), fmt_path(g, path), symx.canon(esym),
+                                                             {symx.canon(k): v for k, v in val.items()}, vi, ve * at["bits"]), g.qn)
+                                break
                     # the bitmap is handed, with a length in bits, to a bit-sequence builder / constructor: every word that holds
                     # one of those bits must have been filled (the builder copies / saves whole words up to that length)
                     for ln, cond in loops:
